@@ -31,6 +31,10 @@ CHECKS = {
             "Generated numbers of the locale grammar (US / continental / Swiss / space groups), all cut patterns at the separators (own mo / own mtext / glued left / glued right / uncut) in ten contexts; canonical tree, speech and braille of the split spelling must equal those of the single mn; negative cases (two decimal marks, short group after a comma, operator in between, comma lists in fences) must not fold.",
             "Excluded by construction, with the reason recorded in evidence.reject_reasons: leading/trailing commas and trailing decimal marks in their own token (documented as never folded because they cannot be told from punctuation) and a final period where '.' is a separator of the locale.",
             "DESIGN.md 3/C16"),
+    "C03": ("property-based testing with a grammar generator over the operator dictionary: validity predicate on every row plus differential against a reference precedence-climbing parser",
+            "Generated well-formed operator/operand sequences over the single-form dictionary operators (and the + - x families), nested fences and author mrows, placed at top level or inside 2-D constructs; oracle A checks every mrow (one priority class or one n-ary family, operand rows bind at least as tightly, no adjacent operands); oracle B requires the bracketing to equal a reference parse computed from operator-info.in priorities, skipped on priority ties between different operators (the dictionary does not define associativity).",
+            "operator-info.in is the specification (a changed priority is a changed specification). Chemistry heuristics are switched off (preference Chemistry=Off); atoms avoid function-name and number-merging heuristics.",
+            "DESIGN.md 3/C03"),
 }
 
 NOT_YET = "check not built yet in this round (machinery in progress; see DESIGN.md section 7 build order)"
